@@ -83,9 +83,12 @@ func (h *H) keyRes(k vaxis.Key, mn int) (string, *uniSet) {
 	if p {
 		return "panic", &u
 	}
-	if direct != viaUpdate {
+	// the observation point is what Update writes; the direct call of the encoder must agree with it
+	// except for key releases, which Update does not forward at all
+	if direct != viaUpdate && k.EventType != vaxis.EventRelease {
 		return "inconsistent:" + hx.Hex(direct) + ":" + hx.Hex(viaUpdate), &u
 	}
+	direct = viaUpdate
 	seqs, st := reparse(direct)
 	dk := "-"
 	if len(seqs) > 0 {
@@ -312,6 +315,32 @@ func (h *H) keySample() map[string][]vaxis.Key {
 		add("text-productions", k)
 	}
 	fromBytes("text-productions", kitty('a', 64, 'A', "A"))
+	// key releases and repeats as a host with Options.ReportKeyboardEvents receives them (kitty event types
+	// 3 and 2): a release must write nothing, a repeat is a press
+	for _, et := range []vaxis.EventType{vaxis.EventRelease, vaxis.EventRepeat} {
+		cls := "release-events"
+		if et == vaxis.EventRepeat {
+			cls = "repeat-events"
+		}
+		for _, kc := range specials {
+			for _, m := range []vaxis.ModifierMask{0, vaxis.ModShift, vaxis.ModCtrl, vaxis.ModAlt | vaxis.ModShift} {
+				add(cls, vaxis.Key{Keycode: kc, Modifiers: m, EventType: et})
+			}
+		}
+		for c := rune(0x20); c < 0x7F; c += 3 {
+			add(cls, vaxis.Key{Keycode: c, EventType: et})
+			add(cls, vaxis.Key{Keycode: c, Modifiers: vaxis.ModCtrl, EventType: et})
+			add(cls, vaxis.Key{Keycode: c, Modifiers: vaxis.ModAlt, EventType: et})
+		}
+		for _, c := range []rune{'é', 'ф', '世', '🔥'} {
+			add(cls, vaxis.Key{Keycode: c, EventType: et})
+		}
+		add(cls, vaxis.Key{Keycode: 'a', ShiftedCode: 'A', Modifiers: vaxis.ModShift, EventType: et})
+		add(cls, vaxis.Key{Keycode: 'a', Text: "a", EventType: et})
+	}
+	for _, in := range []string{"\x1b[97;1:3u", "\x1b[13;1:3u", "\x1b[1;1:3A", "\x1b[97;5:3u", "\x1b[97;1:2u", "\x1b[3;2:3~", "\x1b[57399;1:3u"} {
+		fromBytes("release-events", in)
+	}
 	// Ctrl (+Alt, +Shift) on every printable ASCII key and some others: total description of the Ctrl branch
 	for c := rune(0x20); c < 0x7F; c++ {
 		for _, m := range []vaxis.ModifierMask{vaxis.ModCtrl, vaxis.ModCtrl | vaxis.ModAlt, vaxis.ModCtrl | vaxis.ModShift, vaxis.ModCtrl | vaxis.ModAlt | vaxis.ModShift} {
